@@ -25,6 +25,7 @@ structure Params where
   addpath : List (Nat × Nat)     -- RFC 7911: (afi, safi) for which the PEER sends path identifiers
   extnh   : List (Nat × Nat)     -- RFC 8950: (afi, safi) whose next hop may be an IPv6 address
   msgSize : Nat                  -- 4096, or 65535 with RFC 8654
+  aigp    : Bool := false        -- RFC 7311 3.3: AIGP_SESSION is enabled for this peer (`capability aigp`)
 deriving Repr, DecidableEq
 
 def Params.ap (p : Params) (afi safi : Nat) : Bool := p.addpath.contains (afi, safi)
